@@ -112,11 +112,15 @@ Proof. exact face_report_recorded_decode. Qed.
 Theorem C04_key_modifiers : forallb mod_entry_ok prod_key_table = true.
 Proof. exact mod_table_ok. Qed.
 
-(* 6. DecMode::from_usize / DecModeStatus::from_usize know every discriminant of their enum *)
+(* 6. DecMode::from_usize / DecModeStatus::from_usize know every discriminant of their enum, and
+   each variant has the number the xterm documents give to the mode of that name (regenerated
+   name/number pairs of src/terminal.rs against Printer.xterm_decmodes / decrpm_statuses) *)
 Theorem C04_tables :
   forallb (fun m => existsb (N.eqb m) decmode_codes) decmode_all = true
-  /\ forallb (fun s => existsb (N.eqb s) decstatus_codes) decstatus_all = true.
-Proof. exact decmode_table_ok. Qed.
+  /\ forallb (fun s => existsb (N.eqb s) decstatus_codes) decstatus_all = true
+  /\ named_tables_agree decmode_named xterm_decmodes = true
+  /\ named_tables_agree decstatus_named decrpm_statuses = true.
+Proof. exact (conj (proj1 decmode_table_ok) (conj (proj2 decmode_table_ok) decmode_names_ok)). Qed.
 
 (* 7. the named ambiguity: CSI 1 ; n R is the modified F3 *)
 Theorem C04_cpr_vs_f3 : forall (n : N) (rest : list N),
